@@ -71,6 +71,8 @@ class PyLib:
             L.append('  enum Color { red = 1, green = 5, blue = 6 };')
             L.append('  %s(int v);' % c['name'])
             L.append('  %s(const %s &o);' % (c['name'], c['name']))
+            L.append('  explicit %s(const std::string &a, int b = 0);' % c['name'])      # explicit: never used to convert an argument
+            L.append('  int take_%s(const %s &o) const;' % (c['name'], c['name']))
             L.append('  ~%s();' % c['name'])
             L.append('  int get_v_%s() const;' % c['name'])
             L.append('  void set_v_%s(int v);' % c['name'])
@@ -108,6 +110,8 @@ class PyLib:
             L.append('public:')
             L.append('  int v_%s;' % c['name'])
             L.append('};')
+        # a fixed-size sequence with item assignment: the slot after the last one is a guard
+        L += ['class Buf {', '__published:', '  Buf();', '  int size() const;', '  int operator [](int i) const;', '  int &operator [](int i);', '  int guard() const;', 'public:', '  int slots[5];', '};']
         L.append('__begin_publish')
         L.append('int live_objects();')
         L.append('std::string last_call();')
@@ -127,13 +131,17 @@ class PyLib:
         L = ['#include "lib.h"', 'static int LIVE = 0;', 'static std::string LAST;', 'int live_objects() { return LIVE; }', 'std::string last_call() { return LAST; }',
              'int echo_int(int x) { return x; }', 'long long echo_ll(long long x) { return x; }', 'unsigned char echo_u8(unsigned char x) { return x; }', 'short echo_i16(short x) { return x; }',
              'unsigned int echo_u32(unsigned int x) { return x; }', 'double echo_double(double x) { return x; }', 'bool echo_bool(bool x) { return x; }',
-             'std::string echo_str(const std::string &x) { return x; }']
+             'std::string echo_str(const std::string &x) { return x; }',
+             'Buf::Buf() { for (int i = 0; i < 4; ++i) slots[i] = 10 + i; slots[4] = 777; }', 'int Buf::size() const { return 4; }', 'int Buf::operator [](int i) const { return slots[i]; }',
+             'int &Buf::operator [](int i) { return slots[i]; }', 'int Buf::guard() const { return slots[4]; }']
         for c in self.classes:
             n = c['name']
             binit = ('%s(v + 100), ' % c['base']) if c['base'] else ''
             bcopy = ('%s(o), ' % c['base']) if c['base'] else ''
             L.append('%s::%s(int v) : %sv_%s(v) { ++LIVE; }' % (n, n, binit, n))
             L.append('%s::%s(const %s &o) : %sv_%s(o.v_%s) { ++LIVE; }' % (n, n, n, bcopy, n, n))
+            L.append('%s::%s(const std::string &a, int b) : %sv_%s((int)a.size() + b) { ++LIVE; }' % (n, n, ('%s(100), ' % c['base']) if c['base'] else '', n))
+            L.append('int %s::take_%s(const %s &o) const { return o.v_%s; }' % (n, n, n, n))
             L.append('%s::~%s() { --LIVE; }' % (n, n))
             L.append('int %s::get_v_%s() const { return v_%s; }' % (n, n, n))
             L.append('void %s::set_v_%s(int v) { v_%s = v; }' % (n, n, n))
